@@ -250,6 +250,7 @@ func (p *pipeline) writePackage(pkg *gombokgen.Package) {
 	write(filepath.Join(dir, "types.go"), pkg.TypesSource())
 	write(filepath.Join(dir, "zz_lib.go"), gombokgen.LibSource(pkg.Name))
 	write(filepath.Join(dir, "zz_lib2.go"), gombokgen.Lib2Source(pkg.Name))
+	write(filepath.Join(dir, "zz_lib3.go"), gombokgen.Lib3Source(pkg.Name))
 	os.Remove(filepath.Join(dir, "zz_driver.go"))
 }
 
@@ -649,7 +650,25 @@ func main() {
 		res.direct = keep
 		res.checks = res.checksBy[c.prop]
 		if c.prop != "C07" && c.prop != "C08" {
-			res.ops, res.impl = nil, nil
+			// C15: only the `(methods …)` lines (the struct tags of the Mutable twin decide what
+			// encoding/json emits: `omitempty` exactly on the nilable kinds and Options)
+			ops, impl := []string{}, []string{}
+			for i, op := range res.ops {
+				if c.prop == "C15" && strings.HasPrefix(op, "(methods ") {
+					ops, impl = append(ops, op), append(impl, res.impl[i])
+				}
+			}
+			res.ops, res.impl = ops, impl
+		}
+		if c.prop == "C07" {
+			// the `(derive …)` lines belong to C08 (oracle_derive); oracle_record does not know them
+			ops, impl := []string{}, []string{}
+			for i, op := range res.ops {
+				if !strings.HasPrefix(op, "(derive ") {
+					ops, impl = append(ops, op), append(impl, res.impl[i])
+				}
+			}
+			res.ops, res.impl = ops, impl
 		}
 		if c.prop == "C15" {
 			optionOps(common.NewRng(scramble(c.seed^0x1337)), res, 300+c.n*20)
